@@ -30,6 +30,7 @@ fn one_call(ctx: &Ctx, st: &RunSetup, ep: usize, args: &[ArgVal], ret: &dyn DynV
         plan: Arc::new(Mutex::new(plan)),
     };
     let mut call = CallRec {
+        client_kind: crate::mirror::ClientKind::Generated,
         ep,
         args: args.to_vec(),
         ret: ret.clone_box(),
